@@ -146,8 +146,34 @@ class SSeq:
         return f"SSeq<{self.k}>[{self.n}]"
 
 
+def fresh_arr(prefix, kind):
+    """Array Int -> kind; for a tuple kind, a tuple of arrays (struct of arrays)."""
+    if isinstance(kind, tuple):
+        return tuple(fresh_arr(f"{prefix}.{i}", k) for i, k in enumerate(kind))
+    return z3.Const(fresh_name(prefix), z3.ArraySort(z3.IntSort(), KIND_SORT[kind]))
+
+
+def sel(arr, kind, i):
+    """Element i as a value (Sym, or host tuple of values for tuple kinds)."""
+    if isinstance(kind, tuple):
+        return tuple(sel(a, k, i) for a, k in zip(arr, kind))
+    return Sym(z3.Select(arr, i), kind)
+
+
+def elem_eq(a, i, b, j, kind):
+    if isinstance(kind, tuple):
+        return z3.And(*[elem_eq(x, i, y, j, k) for x, y, k in zip(a, b, kind)])
+    return z3.Select(a, i) == z3.Select(b, j)
+
+
+def arr_store(arr, kind, i, v, to_term):
+    if isinstance(kind, tuple):
+        return tuple(arr_store(a, k, i, x, to_term) for a, k, x in zip(arr, kind, v))
+    return z3.Store(arr, i, to_term(v, kind))
+
+
 def fresh_sseq(prefix, kind):
-    arr = z3.Const(fresh_name(prefix + "_arr"), z3.ArraySort(z3.IntSort(), KIND_SORT[kind]))
+    arr = fresh_arr(prefix + "_arr", kind)
     n = z3.Const(fresh_name(prefix + "_len"), z3.IntSort())
     return SSeq(arr, n, kind)
 
